@@ -339,6 +339,17 @@ func checkC07Parent(x *e1ctx) {
 				chanWrites = append(chanWrites, call)
 			}
 		}
+		// a helper of the package that issues the raw write(2) counts as a write at its call site
+		if callee != nil && inModule(callee) && reachesCall(callee, 2, func(c2 ssa.CallInstruction) bool {
+			n2, _ := calleeOf(c2)
+			if n2 == "syscall.Syscall" || isRawSyscallName(n2) {
+				v, ok := constInt(c2.Common().Args[0])
+				return ok && v == writeNr
+			}
+			return false
+		}) {
+			chanWrites = append(chanWrites, call)
+		}
 	}
 	if syncCall == nil {
 		c.Fail("2/parent-sync", key+":callback", p.Pos(fn.Pos()), "the configured SyncFunc is never invoked by the parent")
